@@ -124,3 +124,25 @@ theorem owners_as_modelled : PlannerSrc.owners =
      ("StationarySurveyPlanner", "StationarySurveyPlanner", "ScheduledSurveyPlanner")] := by decide
 
 end LdarModel.PlannerTie
+
+/-! non-vacuity: a concrete planner object related to a concrete model planner on 15 March 2023 (two
+surveys required, none done, first plan date 1 March): the guard fires, on both sides -/
+namespace LdarModel.PlannerTie
+open LdarModel.Sched LdarModel.PlannerSrc
+
+def exP : PlannerP := { rs := 2, months := [3, 4], depYears := [2023], simYears := [2023], plan := [(3, 1), (9, 1)] }
+def exO : Obj :=
+  { queued := false, active_survey_report := none, year_ok := true, month_ok := true, cur_year := 2023,
+    cur_month := 3, cur_day := 15, arg_year := 2023, required := fun y => if y = 2023 then 2 else 0,
+    done_ := fun _ => 0, plan_month := fun i => if i = 0 then 3 else 9, plan_day := fun _ => 1 }
+
+example : Rel exO exP { y := 2023, m := 3, d := 15 } {} := by
+  refine ⟨by decide, by decide, rfl, rfl, rfl, rfl, by decide, by decide, ?_⟩
+  intro i hi
+  have : i = 0 ∨ i = 1 := by simp [exP] at hi; omega
+  rcases this with h | h <;> subst h <;> simp [exO, exP]
+
+example : guardRoutine exP { y := 2023, m := 3, d := 15 } {} = true
+    ∧ (Routine.queue_site_for_survey exO).2 = true := by decide
+
+end LdarModel.PlannerTie
